@@ -485,8 +485,9 @@ def _deactivate_deleted_active_elements(soup):
 def get_title(soup):
     "Get the title of a Beautiful Soup document."
     for title in soup.find_all('title'):
-        # The `<title>` of an embedded SVG is a tooltip, not the page's title.
-        if not title.find_parent(['svg', 'math']):
+        # The `<title>` of an embedded SVG is a tooltip, not the page's title,
+        # and the content of a `<template>` is not part of the page at all.
+        if not title.find_parent(['svg', 'math', 'template']):
             return title.string or ''
     return ''
 
